@@ -6,10 +6,11 @@ From Coq Require Import List NArith ZArith Bool.
 Import ListNotations.
 From NV Require Import Rec.FreeVars Rec.FreeVarsProofs Rec.Lang Rec.Mech Rec.MechInv.
 
-(* n | x | a + b | a * b | if a <= b then t else e, as the parser builds them *)
+(* n | x | a + b | a * b | if a <= b then t else e, as the parser builds them ([Const] does not occur
+   in source programs; it has no variable) *)
 Fixpoint emb (t : Lang.tm) : FreeVars.tm :=
   match t with
-  | Num _ => Leaf
+  | Num _ | Const _ => Leaf
   | Lang.Var x => FreeVars.Var x
   | Add a b | Mul a b => Op2 (emb a) (emb b)
   | IfLe a b t e => App (App (Op1 (Op2 (emb a) (emb b))) (emb t)) (emb e)
@@ -19,19 +20,33 @@ Fixpoint emb (t : Lang.tm) : FreeVars.tm :=
    (fun v => v >= lo) is a closed combinator bound outside of the record (a leaf here) *)
 Definition emb_ctr (kc : ctr) : ty := TContract (App Leaf (emb (snd kc))).
 
-Definition emb_field (d : fdef) : field := Fld (map emb_ctr (fctrs d)) (option_map emb (fbody d)).
+(* a nested record literal: statically named fields, and dynamically named fields whose name is a
+   string with an interpolated constant *)
+Definition emb_fdef0 (d : fdef0) : field := Fld (map emb_ctr (f0ctrs d)) (option_map emb (f0body d)).
+Definition emb_ilit (l : ilit) : FreeVars.tm :=
+  RecRec (map (fun kd => (fst kd, emb_fdef0 (snd kd))) (filter (fun kd => negb (f0dyn (snd kd))) l))
+         []
+         (map (fun kd => (Chunks [Some Leaf], emb_fdef0 (snd kd))) (filter (fun kd => f0dyn (snd kd)) l)).
 
-(* the literal as the parser builds it: statically named fields, and dynamically named fields
-   whose name is a string with an interpolated outer variable *)
+Definition emb_src (s : src) : FreeVars.tm :=
+  match s with
+  | STm t => emb t
+  | SSub l => emb_ilit l
+  end.
+
+Definition emb_field (d : fdef) : field := Fld (map emb_ctr (fctrs d)) (option_map emb_src (fbody d)).
+
+(* the literal as the parser builds it *)
 Definition emb_stat (l : literal) : list (N * field) :=
   map (fun kd => (fst kd, emb_field (snd kd))) (filter (fun kd => negb (fdyn (snd kd))) l).
 Definition emb_dyn (l : literal) : list (FreeVars.tm * field) :=
-  map (fun kd => (Chunks [Some (FreeVars.Var (fst kd + 1000)%N)], emb_field (snd kd))) (filter (fun kd => fdyn (snd kd)) l).
+  map (fun kd => (Chunks [Some Leaf], emb_field (snd kd))) (filter (fun kd => fdyn (snd kd)) l).
 Definition emb_lit (l : literal) : FreeVars.tm := RecRec (emb_stat l) [] (emb_dyn l).
 
 Lemma vars_collect : forall t x, In x (vars t) <-> In x (collect false (emb t)).
 Proof.
-  induction t as [z|y|a IHa b IHb|a IHa b IHb|a IHa b IHb t IHt e IHe]; intros x; cbn [vars emb collect].
+  induction t as [z|y|o|a IHa b IHb|a IHa b IHb|a IHa b IHb t IHt e IHe]; intros x; cbn [vars emb collect].
+  - reflexivity.
   - reflexivity.
   - reflexivity.
   - rewrite !in_app_iff, IHa, IHb. reflexivity.
@@ -39,18 +54,69 @@ Proof.
   - rewrite !in_app_iff, IHa, IHb, IHt, IHe. tauto.
 Qed.
 
-(* the variables of a body are its free variables in the sense of part A's specification *)
+Lemma ctrs_collect : forall (cs : list ctr) x,
+  In x (flat_map (collect_ty false) (map emb_ctr cs)) <-> In x (flat_map (fun kc => vars (snd kc)) cs).
+Proof.
+  intros cs x. rewrite !in_flat_map. split.
+  - intros [t [Ht Hx]]. apply in_map_iff in Ht. destruct Ht as [kc [E Hkc]]. subst t. exists kc. split; [exact Hkc|].
+    cbn [emb_ctr collect_ty collect app] in Hx. apply vars_collect. exact Hx.
+  - intros [kc [Hkc Hx]]. exists (emb_ctr kc). split; [apply in_map; exact Hkc|].
+    cbn [emb_ctr collect_ty collect app]. apply vars_collect. exact Hx.
+Qed.
+
+Lemma fdef0_collect : forall d x, In x (collect_field false (emb_fdef0 d)) <-> In x (fdef0_vars d).
+Proof.
+  intros d x. unfold emb_fdef0, fdef0_vars. cbn [collect_field]. rewrite !in_app_iff, ctrs_collect.
+  destruct (f0body d) as [t|]; cbn [option_map]; [rewrite <- vars_collect|]; reflexivity.
+Qed.
+
+Lemma lmem_In : forall x l, Lang.mem x l = true <-> In x l.
+Proof. intros x l. exact (FreeVarsProofs.mem_In x l). Qed.
+
+(* the variables of a definition are the free variables of the term the parser builds for it; for a
+   nested record literal: the variables of its fields that the literal does not bind itself *)
+Lemma svars_collect : forall s x, In x (svars s) <-> In x (collect false (emb_src s)).
+Proof.
+  intros [t|l] x; cbn [svars emb_src]; [apply vars_collect|].
+  unfold emb_ilit. cbn [collect]. cbv zeta. cbn [flat_map app]. rewrite app_nil_r.
+  assert (Hsc : map fst (map (fun kd : N * fdef0 => (fst kd, emb_fdef0 (snd kd))) (filter (fun kd => negb (f0dyn (snd kd))) l))
+                = ilit_scope l).
+  { unfold ilit_scope. rewrite map_map. reflexivity. }
+  rewrite Hsc. unfold Lang.minus. rewrite filter_In, in_app_iff, !in_flat_map.
+  assert (Hneg : negb (Lang.mem x (ilit_scope l)) = true <-> ~ In x (ilit_scope l)).
+  { rewrite negb_true_iff. split.
+    - intros H Hin. apply lmem_In in Hin. congruence.
+    - intros H. destruct (Lang.mem x (ilit_scope l)) eqn:E; [|reflexivity]. exfalso. apply H. apply lmem_In. exact E. }
+  rewrite Hneg. split.
+  - intros [[[k d] [Hin Hx]] Hn]. cbn [snd] in Hx. destruct (f0dyn d) eqn:Ed.
+    + right. exists (Chunks [Some Leaf], emb_fdef0 d). split.
+      * apply in_map_iff. exists (k, d). split; [reflexivity|]. apply filter_In. split; [exact Hin | exact Ed].
+      * cbn [fst snd collect flat_map app]. apply In_minus. split; [apply fdef0_collect; exact Hx | exact Hn].
+    + left. exists (k, emb_fdef0 d). split.
+      * apply in_map_iff. exists (k, d). split; [reflexivity|]. apply filter_In. split; [exact Hin|]. cbn [snd]. rewrite Ed. reflexivity.
+      * cbn [snd]. apply In_minus. split; [apply fdef0_collect; exact Hx | exact Hn].
+  - intros [[[k f] [Hin Hx]]|[[nm f] [Hin Hx]]].
+    + apply in_map_iff in Hin. destruct Hin as [[k' d] [E Hin]]. cbn [fst snd] in E. inversion E; subst k f. apply filter_In in Hin.
+      cbn [snd] in Hx. apply In_minus in Hx. split; [|tauto]. exists (k', d). split; [tauto|]. cbn [snd]. apply fdef0_collect. tauto.
+    + apply in_map_iff in Hin. destruct Hin as [[k' d] [E Hin]]. cbn [fst snd] in E. inversion E; subst nm f. apply filter_In in Hin.
+      cbn [fst snd collect flat_map app] in Hx. apply In_minus in Hx. split; [|tauto]. exists (k', d). split; [tauto|]. cbn [snd]. apply fdef0_collect. tauto.
+Qed.
+
+(* the variables of a definition are its free variables in the sense of part A's specification *)
 Theorem vars_free : forall t x, In x (vars t) <-> free x (emb t).
 Proof. intros t x. rewrite vars_collect. apply collect_sound_complete. Qed.
 
+Theorem svars_free : forall s x, In x (svars s) <-> free x (emb_src s).
+Proof. intros s x. rewrite svars_collect. apply collect_sound_complete. Qed.
+
 (* the mechanism configured with the model of free_vars.rs *)
 Definition cfg_partA : cfg :=
-  {| c_an := fun t => collect false (emb t); c_unknown := false; c_revert := RevFresh; c_patch := PAssert; c_wrap_dyn := false |}.
+  {| c_an := fun s => collect false (emb_src s); c_unknown := false; c_revert := RevFresh; c_patch := PAssert; c_wrap_dyn := false |}.
 
 Theorem cfg_partA_faithful : faithful false cfg_partA.
 Proof.
   unfold faithful. cbn. split; [reflexivity|]. split; [reflexivity|]. split; [reflexivity|]. split; [reflexivity|].
-  intros _ t x. split; intros Hx; apply vars_collect; exact Hx.
+  intros _ t x. split; intros Hx; apply svars_collect; exact Hx.
 Qed.
 
 Lemma rec_fields_scope : forall l, rec_fields (emb_stat l) [] = lit_scope l.
@@ -60,12 +126,12 @@ Qed.
 
 Lemma collect_field_emb : forall d x,
   In x (collect_field false (emb_field d))
-  <-> In x (flat_map (fun kc => c_an cfg_partA (snd kc)) (fctrs d)
+  <-> In x (flat_map (fun kc => c_an cfg_partA (STm (snd kc))) (fctrs d)
             ++ match fbody d with Some t => c_an cfg_partA t | None => [] end).
 Proof.
   intros d x. unfold emb_field. cbn [collect_field]. rewrite !in_app_iff.
   assert (H1 : In x (flat_map (collect_ty false) (map emb_ctr (fctrs d)))
-               <-> In x (flat_map (fun kc => c_an cfg_partA (snd kc)) (fctrs d))).
+               <-> In x (flat_map (fun kc => c_an cfg_partA (STm (snd kc))) (fctrs d))).
   { rewrite !in_flat_map. split.
     - intros [t [Ht Hx]]. apply in_map_iff in Ht. destruct Ht as [kc [E Hkc]]. subst t. exists kc. split; [exact Hkc|].
       cbn [emb_ctr collect_ty collect app] in Hx. exact Hx.
@@ -110,7 +176,7 @@ Proof.
   intros l k d x Hin Hdyn.
   exists (inter (collect_field false (emb_field d)) (rec_fields (emb_stat l) [])). split.
   - unfold deps_dyn. apply in_map_iff.
-    exists (Chunks [Some (FreeVars.Var (k + 1000)%N)], emb_field d). split; [reflexivity|].
+    exists (Chunks [Some Leaf], emb_field d). split; [reflexivity|].
     unfold emb_dyn. apply in_map_iff. exists (k, d). split; [reflexivity|]. apply filter_In. split; [exact Hin | exact Hdyn].
   - apply field_deps_agree.
 Qed.
